@@ -95,6 +95,74 @@ func (w *World) extractChain(fx *Facts, fn *ssa.Function) (*Chain, error) {
 			}
 		}
 	}
+	// steps registered by helpers the handler hands its checker to: `p.addRequestSteps(&checkerInstance, ...)` with
+	// the With... calls made on that parameter, each exactly once
+	outerOf := map[*ssa.Call]*ssa.Call{}
+	helperOf := map[*ssa.Call]bool{}
+	if ch.Checker != nil || true {
+		for _, b := range fn.Blocks {
+			for _, in := range b.Instrs {
+				oc, ok := in.(*ssa.Call)
+				if !ok {
+					continue
+				}
+				g := calleeOf(oc)
+				if g == nil || g.Blocks == nil || isCheckerMethod(g) || g.Pkg != fn.Pkg {
+					continue
+				}
+				for ai, a := range oc.Call.Args {
+					cell, isAl := a.(*ssa.Alloc)
+					if !isAl || cell.Parent() != fn || ai >= len(g.Params) {
+						continue
+					}
+					if n := namedOf(cell.Type().Underlying().(*types.Pointer).Elem()); n == nil || n.Obj().Name() != "Checker" || n.Obj().Pkg().Path() != modPath+"/pkg/provider/checker" {
+						continue
+					}
+					if ch.Checker == nil {
+						ch.Checker = cell
+					} else if ch.Checker != cell {
+						return nil, fmt.Errorf("%s: more than one Checker in %s", w.InstrPos(oc), w.FuncKey(fn))
+					}
+					helperOf[oc] = true
+					par := g.Params[ai]
+					gi := fx.info(g)
+					for _, gb := range g.Blocks {
+						for _, gin := range gb.Instrs {
+							ic, ok := gin.(*ssa.Call)
+							if !ok || !isCheckerMethod(calleeOf(ic)) {
+								continue
+							}
+							recv := ic.Call.Args[0]
+							if ld, isLd := recv.(*ssa.UnOp); isLd {
+								// the parameter spilled into a cell because closures capture it
+								if pc := fx.ownerCell(ld.X); pc != nil {
+									if st := fx.storesToCell(pc); len(st) == 1 {
+										recv = st[0]
+									}
+								}
+							}
+							if recv != ssa.Value(par) {
+								return nil, fmt.Errorf("%s: checker call in helper %s on something other than the checker it was handed", w.InstrPos(ic), w.FuncKey(g))
+							}
+							if !strings.HasPrefix(calleeOf(ic).Name(), "With") {
+								return nil, fmt.Errorf("%s: helper %s does more with the checker than registering steps", w.InstrPos(ic), w.FuncKey(g))
+							}
+							for _, ret := range returnsOf(g) {
+								if !(gb == ret.Block() || gb.Dominates(ret.Block())) {
+									return nil, fmt.Errorf("%s: step registration in helper %s is conditional", w.InstrPos(ic), w.FuncKey(g))
+								}
+							}
+							if gi.reachable(gb, gb) {
+								return nil, fmt.Errorf("%s: step registration inside a loop", w.InstrPos(ic))
+							}
+							withs = append(withs, ic)
+							outerOf[ic] = oc
+						}
+					}
+				}
+			}
+		}
+	}
 	if ch.Checker == nil {
 		return nil, fmt.Errorf("%s owns no checker.Checker", w.FuncKey(fn))
 	}
@@ -105,7 +173,7 @@ func (w *World) extractChain(fx *Facts, fn *ssa.Function) (*Chain, error) {
 	for _, ref := range *ch.Checker.Referrers() {
 		switch r := ref.(type) {
 		case *ssa.Call:
-			if !isCheckerMethod(calleeOf(r)) {
+			if !isCheckerMethod(calleeOf(r)) && !helperOf[r] {
 				return nil, fmt.Errorf("%s: the Checker escapes into %s", w.InstrPos(r), calleeName(r))
 			}
 		case *ssa.Store:
@@ -121,7 +189,14 @@ func (w *World) extractChain(fx *Facts, fn *ssa.Function) (*Chain, error) {
 	// CheckFailed's block and is not part of a cycle.
 	fi := fx.info(fn)
 	cfb := ch.CheckFailed.Block()
+	anchor := func(c *ssa.Call) *ssa.Call {
+		if oc := outerOf[c]; oc != nil {
+			return oc
+		}
+		return c
+	}
 	for _, c := range withs {
+		c := anchor(c)
 		b := c.Block()
 		if !(b == cfb || b.Dominates(cfb)) {
 			return nil, fmt.Errorf("%s: step registration does not dominate CheckFailed (conditional step)", w.InstrPos(c))
@@ -133,16 +208,25 @@ func (w *World) extractChain(fx *Facts, fn *ssa.Function) (*Chain, error) {
 			return nil, fmt.Errorf("%s: step registered after CheckFailed", w.InstrPos(c))
 		}
 	}
-	sort.SliceStable(withs, func(i, j int) bool {
-		bi, bj := withs[i].Block(), withs[j].Block()
+	before := func(x, y *ssa.Call) bool {
+		ax, ay := anchor(x), anchor(y)
+		if ax == ay {
+			// both inside the same helper call: their order in the helper
+			bi, bj := x.Block(), y.Block()
+			if bi == bj {
+				return instrIndex(x) < instrIndex(y)
+			}
+			return bi.Dominates(bj)
+		}
+		bi, bj := ax.Block(), ay.Block()
 		if bi == bj {
-			return instrIndex(withs[i]) < instrIndex(withs[j])
+			return instrIndex(ax) < instrIndex(ay)
 		}
 		return bi.Dominates(bj)
-	})
+	}
+	sort.SliceStable(withs, func(i, j int) bool { return before(withs[i], withs[j]) })
 	for i := 0; i+1 < len(withs); i++ {
-		bi, bj := withs[i].Block(), withs[i+1].Block()
-		if bi != bj && !bi.Dominates(bj) {
+		if !before(withs[i], withs[i+1]) {
 			return nil, fmt.Errorf("%s: step order is not determined by dominance", w.InstrPos(withs[i+1]))
 		}
 	}
